@@ -34,6 +34,9 @@ import (
 	"github.com/atlassian/gostatsd/pkg/statsd"
 	"github.com/atlassian/gostatsd/pkg/transport"
 
+	"github.com/atlassian/gostatsd/pkg/cachedinstances/cloudprovider"
+	"golang.org/x/time/rate"
+
 	"verif/mon"
 	"verif/ref"
 )
@@ -55,6 +58,59 @@ type config struct {
 	Mode      string `json:"mode"`
 	Readers   int    `json:"readers,omitempty"`
 	RecvBatch int    `json:"receive_batch,omitempty"`
+	// Cloud puts the real CachedCloudProvider (over a scripted provider that always answers, after a varying
+	// delay) and the cloud stage into the server: datapoints of a not-yet-known host are parked until its lookup
+	// completes; cache entries expire after a few milliseconds, so lookups, refreshes and parked batches keep
+	// interleaving for the whole run. Jumbo makes some datagrams as large as UDP allows.
+	Cloud bool `json:"cloud,omitempty"`
+	Jumbo bool `json:"jumbo,omitempty"`
+}
+
+// cloudSources is the host pool of cloud executions; cloudTags / cloudID is what the scripted provider answers.
+var cloudSources = func() []string {
+	var out []string
+	for i := 0; i < 48; i++ {
+		out = append(out, fmt.Sprintf("10.9.%d.%d", i/8, 1+i%8))
+	}
+	return out
+}()
+
+func cloudID(src string) string { return "i-" + src }
+func cloudTags(src string) []string {
+	last := src[strings.LastIndexByte(src, '.')+1:]
+	tags := []string{"az:z" + last}
+	if last == "2" || last == "5" {
+		tags = append(tags, "env:prod") // collides with a tag some lines carry themselves
+	}
+	return tags
+}
+
+// scriptedProvider answers every lookup with the instance derived from the address.
+type scriptedProvider struct {
+	batch int
+	calls atomic.Int64
+	ips   atomic.Int64
+}
+
+func (p *scriptedProvider) Name() string           { return "scripted" }
+func (p *scriptedProvider) MaxInstancesBatch() int { return p.batch }
+func (p *scriptedProvider) EstimatedTags() int     { return 2 }
+func (p *scriptedProvider) Instance(ctx context.Context, ips ...gostatsd.Source) (map[gostatsd.Source]*gostatsd.Instance, error) {
+	n := p.calls.Add(1)
+	p.ips.Add(int64(len(ips)))
+	switch n % 5 { // varying latency, not a synchronisation
+	case 0:
+		time.Sleep(time.Duration(n%7) * 100 * time.Microsecond)
+	case 1, 2:
+		for i := int64(0); i < n%40; i++ {
+			runtime.Gosched()
+		}
+	}
+	out := make(map[gostatsd.Source]*gostatsd.Instance, len(ips))
+	for _, ip := range ips {
+		out[ip] = &gostatsd.Instance{ID: gostatsd.Source(cloudID(string(ip))), Tags: gostatsd.Tags(cloudTags(string(ip)))}
+	}
+	return out, nil
 }
 
 // spyStatser counts flush notifications and accumulates Report()ed counters.
@@ -165,7 +221,9 @@ func seriesKey(typ int, ns, name string, tags []string, source string) string {
 	return ref.Key(typ, name, ref.TagsKey(uniq(tags), source))
 }
 
-func fmtRate(v float64) string { return strings.TrimRight(strings.TrimRight(fmt.Sprintf("%.3f", v), "0"), ".") }
+func fmtRate(v float64) string {
+	return strings.TrimRight(strings.TrimRight(fmt.Sprintf("%.3f", v), "0"), ".")
+}
 
 // generator pushes cfg.Batches batches of datagrams into in and returns what it sent.
 func generator(g int, cfg config, rng *rand.Rand, in chan<- []*statsd.Datagram, tsBase int64, tsCounter *atomic.Int64, idCounter *atomic.Int64) *expect {
@@ -179,15 +237,30 @@ func generatorTo(g int, cfg config, rng *rand.Rand, emit func([]*statsd.Datagram
 		batch := make([]*statsd.Datagram, 0, ndg)
 		for d := 0; d < ndg; d++ {
 			src := sources[rng.Intn(len(sources))]
+			if cfg.Cloud {
+				src = cloudSources[rng.Intn(len(cloudSources))]
+			}
 			var sb strings.Builder
 			nl := 1 + rng.Intn(20)
+			if cfg.Jumbo && rng.Intn(6) == 0 {
+				nl = 300 + rng.Intn(1900) // capped below at the largest UDP payload
+			}
 			seenGauge := map[string]bool{}
 			for l := 0; l < nl; l++ {
+				if sb.Len() > 65507-80 {
+					break // the next line might not fit into one UDP datagram
+				}
 				s := rng.Intn(cfg.Series)
 				tags := tagVariants[rng.Intn(len(tagVariants))]
 				tagStr := ""
 				if len(tags) > 0 {
 					tagStr = "|#" + strings.Join(tags, ",")
+				}
+				src := src
+				if cfg.Cloud {
+					// what the cloud stage makes of it: the instance's tags are appended, the host becomes the instance id
+					tags = append(append([]string(nil), tags...), cloudTags(src)...)
+					src = cloudID(src)
 				}
 				switch typ := 1 + rng.Intn(4); typ {
 				case 1:
@@ -673,7 +746,6 @@ func runExecution(t *testing.T, r *mon.Run, cfg config) {
 	}
 }
 
-
 // ---------------------------------------------------------------------------------------------
 // server mode: the real statsd.Server on a scripted socket
 
@@ -700,11 +772,13 @@ func (c *scriptConn) ReadFrom(b []byte) (int, net.Addr, error) {
 	}
 }
 func (c *scriptConn) WriteTo(b []byte, addr net.Addr) (int, error) { return len(b), nil }
-func (c *scriptConn) Close() error                                { c.once.Do(func() { close(c.closed) }); return nil }
-func (c *scriptConn) LocalAddr() net.Addr                         { return &net.UDPAddr{IP: net.IPv4(127, 0, 0, 1), Port: 8125} }
-func (c *scriptConn) SetDeadline(time.Time) error                 { return nil }
-func (c *scriptConn) SetReadDeadline(time.Time) error             { return nil }
-func (c *scriptConn) SetWriteDeadline(time.Time) error            { return nil }
+func (c *scriptConn) Close() error                                 { c.once.Do(func() { close(c.closed) }); return nil }
+func (c *scriptConn) LocalAddr() net.Addr {
+	return &net.UDPAddr{IP: net.IPv4(127, 0, 0, 1), Port: 8125}
+}
+func (c *scriptConn) SetDeadline(time.Time) error      { return nil }
+func (c *scriptConn) SetReadDeadline(time.Time) error  { return nil }
+func (c *scriptConn) SetWriteDeadline(time.Time) error { return nil }
 
 func runServerExecution(t *testing.T, r *mon.Run, cfg config) {
 	r.Case("server execution %+v", cfg)
@@ -724,6 +798,16 @@ func runServerExecution(t *testing.T, r *mon.Run, cfg config) {
 		FlushInterval: 3 * time.Millisecond, MaxReaders: cfg.Readers, MaxParsers: cfg.Parsers, MaxWorkers: cfg.Workers, MaxQueueSize: cfg.Queue,
 		MaxConcurrentEvents: 4, ReceiveBatchSize: cfg.RecvBatch, Namespace: cfg.Namespace, StatserType: gostatsd.StatserNull, PercentThreshold: []float64{90},
 		HistogramLimit: 10, ServerMode: "standalone", DisableInternalEvents: true, Viper: v, TransportPool: transport.NewTransportPool(logrus.StandardLogger(), v),
+	}
+	var prov *scriptedProvider
+	if cfg.Cloud {
+		// composed like cmd/gostatsd does: the cache is a runnable of the server and its CachedInstances
+		prov = &scriptedProvider{batch: 1 + cfg.Exec%32}
+		ci := cloudprovider.NewCachedCloudProvider(logrus.StandardLogger(), rate.NewLimiter(rate.Inf, 1), prov, gostatsd.CacheOptions{
+			CacheRefreshPeriod: 2 * time.Millisecond, CacheEvictAfterIdlePeriod: 7 * time.Millisecond, CacheTTL: 4 * time.Millisecond, CacheNegativeTTL: 4 * time.Millisecond,
+		})
+		srv.CachedInstances = ci
+		srv.Runnables = append(srv.Runnables, ci.Run)
 	}
 	conn := &scriptConn{ch: make(chan pkt), closed: make(chan struct{})}
 	ctx, cancel := context.WithCancel(context.Background())
@@ -817,8 +901,12 @@ func runServerExecution(t *testing.T, r *mon.Run, cfg config) {
 	r.Event("datapoints", want.lines)
 	r.Event("datagrams_through_receiver", int(sent.Load()))
 	r.Event("series_in_2+_flushes", multi)
+	if prov != nil {
+		r.Event("cloud_lookup_calls", int(prov.calls.Load()))
+		r.Event("cloud_lookup_sources", int(prov.ips.Load()))
+	}
 	if multi >= 1 {
-		r.Nontrivial(fmt.Sprintf("server R%d P%d W%d Q%d G%d B%d %s %s", cfg.Readers, cfg.Parsers, cfg.Workers, cfg.Queue, cfg.Gens, cfg.RecvBatch, cfg.Namespace, cfg.Expiry))
+		r.Nontrivial(fmt.Sprintf("server R%d P%d W%d Q%d G%d B%d %s %s cloud%v jumbo%v", cfg.Readers, cfg.Parsers, cfg.Workers, cfg.Queue, cfg.Gens, cfg.RecvBatch, cfg.Namespace, cfg.Expiry, cfg.Cloud, cfg.Jumbo))
 	}
 }
 
@@ -861,7 +949,11 @@ func TestCheck(t *testing.T) {
 			Bursty:    rng.Intn(2) == 0,
 		}
 		if i%3 == 2 {
-			cfg.Mode, cfg.Readers, cfg.RecvBatch = "server", 1+rng.Intn(4), []int{1, 2, 10, 50}[rng.Intn(4)]
+			cfg.Mode, cfg.Readers, cfg.RecvBatch = "server", 1+rng.Intn(4), []int{1, 2, 10, 50, 200, 600}[rng.Intn(6)]
+			if cfg.RecvBatch > 64 && cfg.Readers > 2 {
+				cfg.Readers = 2 // one 64 KiB buffer per message of a batch and reader
+			}
+			cfg.Cloud, cfg.Jumbo = rng.Intn(2) == 0, rng.Intn(2) == 0
 			runServerExecution(t, r, cfg)
 		} else {
 			cfg.Mode = "pipeline"
